@@ -138,7 +138,12 @@ func c01hParseScript(s string, keys []string) (*vc01hop.Script, error) {
 		sc.Limit, _ = strconv.Atoi(f[1][:len(f[1])-1])
 		sc.LimitAct = f[1][len(f[1])-1]
 	}
+	listed := map[string]bool{}
 	for i, k := range keys {
+		if listed[k] {
+			continue // an address listed twice: the hop answers by mailbox
+		}
+		listed[k] = true
 		switch f[2][i] {
 		case 't':
 			sc.Rej[k] = 450
@@ -199,23 +204,32 @@ func c01hRun(t *testing.T, out *vh.Out, op string, port string) {
 	addrs := map[int]string{}
 	keyToID := map[string]int{} // spelling on the wire -> recipient
 	var keys []string
+	var distinct []int
+	repeated := false
 	for i, id := range ids {
 		a := c01hAddr(id, forms[i])
-		if _, dup := addrs[id]; dup {
-			t.Errorf("%s: recipient %d twice", op, id)
-			return
-		}
-		addrs[id] = a
 		k := c01hWire(a, utf8)
 		if k == "" {
 			k = "unsendable:" + a // refused locally, the hop never sees it
 		}
+		if prev, dup := addrs[id]; dup {
+			// the address is listed twice in the envelope (identical spelling)
+			if prev != a {
+				t.Errorf("%s: recipient %d twice with different forms", op, id)
+				return
+			}
+			repeated = true
+			keys = append(keys, k)
+			continue
+		}
+		addrs[id] = a
 		if _, dup := keyToID[k]; dup {
 			t.Errorf("%s: recipients %d and %d cannot be told apart at the next hop (%s)", op, keyToID[k], id, k)
 			return
 		}
 		keyToID[k] = id
 		keys = append(keys, k)
+		distinct = append(distinct, id)
 	}
 	var scripts []*vc01hop.Script
 	for _, s := range strings.Split(toks[8], ";") {
@@ -399,9 +413,13 @@ func c01hRun(t *testing.T, out *vh.Out, op string, port string) {
 	bt.mu.Lock()
 	for _, e := range events {
 		if strings.HasPrefix(e, "report:") {
+			inRep := map[int]bool{}
 			for _, r := range strings.Split(e[len("report:"):], ",") {
 				if v, err := strconv.Atoi(r); err == nil {
-					reports[v]++
+					if !inRep[v] {
+						inRep[v] = true
+						reports[v]++
+					}
 				} else {
 					foreign = append(foreign, r)
 				}
@@ -427,8 +445,22 @@ func c01hRun(t *testing.T, out *vh.Out, op string, port string) {
 
 	// ---- monitor: the property itself ----
 	name := map[string]string{"r": "remote", "s": "smtp", "l": "lmtp"}[kind]
-	for _, i := range ids {
-		c, rp := commits[i], reports[i]
+	// the hop's own books: message transfers acknowledged per recipient (an address named in two RCPT
+	// commands of ONE transfer got the message once), failure reports naming it (once per report)
+	transfers := map[int]int{}
+	for k, n := range sh.Transfers() {
+		if id, ok := keyToID[k]; ok {
+			transfers[id] += n
+		}
+	}
+	if repeated {
+		out.Stat("hop." + name + ".repeated-address")
+	}
+	for _, i := range distinct {
+		c, rp := transfers[i], reports[i]
+		if !repeated && c != commits[i] {
+			panic("C01 hop: transfer count")
+		}
 		ok := (c == 1 && rp == 0) || (c == 0 && rp == 1 && dsn) || (c == 0 && rp == 0 && !dsn)
 		if !ok {
 			sig := "C01/hop-" + name + "-outcome"
@@ -794,6 +826,65 @@ func c01hGen(r *vh.Rng, kind string, bias, sub int) string {
 	return fmt.Sprintf("C01 hop %s %d 1 %s %s %d %s", kind, maxTries, strings.Join(ids, ","), forms, utf8, strings.Join(scripts, ";"))
 }
 
+// c01hGenDup: an address listed twice in the envelope (identical spelling), most often FOLLOWED by
+// other recipients of the same next hop; a quiet session in the first attempt in which the hop
+// answers per mailbox: sub picks who is refused (a later recipient / the repeated one / nobody) and
+// where (LMTP: per-recipient reply after the final dot, 452 / 554; otherwise RCPT 450 / 550).
+func c01hGenDup(r *vh.Rng, kind string, sub int) string {
+	others := 1 + r.Intn(2)
+	ids := []int{1, 1}
+	if r.Chance(15) {
+		ids = append(ids, 1)
+	}
+	for j := 0; j < others; j++ {
+		ids = append(ids, 2+j)
+	}
+	if r.Chance(25) {
+		// another recipient first, or between the two
+		at := r.Intn(2)
+		ids = append(ids[:at], append([]int{5}, ids[at:]...)...)
+	}
+	nr := len(ids)
+	form := "aab"[r.Intn(3)]
+	maxTries := 1 + r.Intn(3)
+	var scripts []string
+	for a := 0; a < maxTries; a++ {
+		rej := []byte(strings.Repeat("o", nr))
+		st := []byte(strings.Repeat("o", nr))
+		set := func(b []byte, id int, c byte) {
+			for j, x := range ids {
+				if x == id {
+					b[j] = c
+				}
+			}
+		}
+		if a == 0 || r.Chance(40) {
+			c := "pt"[(sub/3+a)%2]
+			who := ids[nr-1] // a recipient after the repeated address
+			switch sub % 3 {
+			case 1:
+				who = 1
+			case 2:
+				who = ids[nr-1-r.Intn(others)]
+			}
+			if kind == "l" && (a > 0 || sub%2 == 0 || r.Chance(50)) {
+				set(st, who, c)
+			} else {
+				set(rej, who, c)
+			}
+			if r.Chance(20) {
+				set(st, 1, "tp"[r.Intn(2)])
+			}
+		}
+		scripts = append(scripts, strings.Join([]string{"0o", "-o", string(rej), "o", string(st), "-", "o", "-"}, "/"))
+	}
+	var is []string
+	for _, x := range ids {
+		is = append(is, strconv.Itoa(x))
+	}
+	return fmt.Sprintf("C01 hop %s %d 1 %s %s %d %s", kind, maxTries, strings.Join(is, ","), strings.Repeat(string(form), nr), r.Intn(2), strings.Join(scripts, ";"))
+}
+
 // c01hPort picks the port all MXs of this test process listen on (each on loopback addresses of
 // its own) and tells target.remote about it.
 func c01hPort() string {
@@ -825,6 +916,11 @@ func TestVerifC01Hop(t *testing.T) {
 	for i := 0; i < n; i++ {
 		bias := i % 7
 		sub := i / 35 // bias and kind repeat every 35 cases
+		if i%8 == 7 {
+			// an address listed twice: LMTP in half of the cases (statuses are mapped to recipients there)
+			jobs <- c01hGenDup(r, string("lsrl"[(i/8)%4]), i/32)
+			continue
+		}
 		switch i % 5 {
 		case 0, 1, 2:
 			jobs <- c01hGen(r, "r", bias, sub)
